@@ -130,6 +130,21 @@ def runHRib (v : Variant) (ops input : String) : Option String := do
     some (showGroups (runRoutes v (List.replicate (announcements u).length a ++ List.replicate (withdrawals u).length w)))
   | _ => none
 
+/-- every message produces an `Update::OutputStream` here (the scripts start with a marker), so
+    groups are not filtered: one group per message -/
+def showGroupsAll (g : List (List Out)) : String :=
+  if g.isEmpty then "-" else " / ".intercalate (g.map fun v => "os[" ++ " ".intercalate (v.map showOsm) ++ "]")
+
+def runS (v : Variant) (unit ops msgs : String) : Option String := do
+  match ops.splitOn ";" with
+  | [a, b] =>
+    let a ← parseOps a
+    let b ← parseOps b
+    let ms ← (msgs.splitOn ";").mapM fun t =>
+      if unit == "bgp" then (parseUpd (kvs t)).map bgpMsg else parseBmp (kvs t)
+    some (showGroupsAll (runSession v 64999 a b ms))
+  | _ => none
+
 def runCase (v : Variant) (line : String) : String :=
   let r := match line.splitOn "|" with
     | ["T", "registry"] => some (" ".intercalate registry)
@@ -137,6 +152,7 @@ def runCase (v : Variant) (line : String) : String :=
     | ["L", unit, ops, input] => runL v unit ops input
     | ["H", "bmp", ops, input] => runHBmp v ops input
     | ["H", "rib", ops, input] => runHRib v ops input
+    | ["S", unit, ops, msgs] => runS v unit ops msgs
     | _ => none
   r.getD "bad-case"
 
@@ -147,4 +163,4 @@ partial def loop (v : Variant) (h : IO.FS.Stream) (out : IO.FS.Stream) : IO Unit
   loop v h out
 
 def main (args : List String) : IO Unit := do
-  loop ⟨args.contains "take_entry=repaired", args.contains "rib_stream=per-route"⟩ (← IO.getStdin) (← IO.getStdout)
+  loop ⟨args.contains "take_entry=repaired", args.contains "rib_stream=per-route", !args.contains "msg_stream=per-session"⟩ (← IO.getStdin) (← IO.getStdout)
